@@ -25,6 +25,7 @@ package main
 //@   acquires-level 10
 
 //@ func (*listenerSet).ListenStream
+//@   loop-free
 //@   props C10 C13 C18 C19
 //@   params ls addr
 //@   acquires-level 5
@@ -35,6 +36,7 @@ package main
 //@   trace[C09,C10,address-looked-up-before-listening] before maplookup service.ListenerManager.Listen*
 //@   trace[C10,every-handle-is-recorded-for-closing] each service.ListenerManager.Listen* satisfies $res1 == nil ==> evcount("mapupdate") == 1
 //@ func (*listenerSet).ListenPacket
+//@   loop-free
 //@   props C10 C13 C18 C19
 //@   params ls addr
 //@   acquires-level 5
@@ -100,6 +102,9 @@ package main
 //@   props C18
 //@   params configData
 //@   ensures result.1 == nil ==> result.0 != nil
+// The listener types a generation can start (runConfig starts exactly these; Validate accepts only these).
+//@ pred supportedListenerType(t ListenerType) := t == "tcp" || t == "udp"
+
 //@ func (*Config).Validate
 //@   props C09 C18
 //@   params c
@@ -109,6 +114,7 @@ package main
 //@   trace[C09,duplicate-listener-rejected] each maplookup satisfies $res1 == true ==> result != nil
 //@   trace[C09,every-listener-checked-for-duplicates] loop 2 exactly 1 maplookup
 //@   trace[C09,every-listener-recorded] loop 2 exactly 1 mapupdate
+//@   trace[C10,only-supported-listener-types-are-accepted] loop 2 holds supportedListenerType(serviceConfig.Listeners[rangeindex].Type)
 
 //@ func (*OutlineServer).runConfig
 //@   props C10 C18
@@ -149,6 +155,15 @@ package main
 //@   trace[C09,listens-on-configured-address] loop 4 each main.(*listenerSet).ListenStream satisfies $arg1 == lnConfig.Address
 //@   trace[C09,listens-on-configured-address-udp] loop 4 each main.(*listenerSet).ListenPacket satisfies $arg1 == lnConfig.Address
 //@   trace[C09,one-listener-per-entry] loop 4 atmost 1 main.(*listenerSet).Listen*
+//@   trace[C09,C11,every-stream-listener-is-served] loop 4 each main.(*listenerSet).ListenStream satisfies $res1 == nil ==> evcount("go:service.StreamServe") == 1
+//@   trace[C04,C09,C11,every-packet-listener-is-served-by-one-receive-loop] loop 4 each main.(*listenerSet).ListenPacket satisfies $res1 == nil ==> evcount("go:service.Service.HandlePacket") == 1
+//@   trace[C09,stream-listener-served-by-the-service-of-its-entry] loop 4 each go:service.StreamServe satisfies uses(ln) && uses(ssService)
+//@   trace[C09,packet-listener-served-by-the-service-of-its-entry] loop 4 each go:service.Service.HandlePacket satisfies uses(pc) && uses(ssService)
+//@   trace[C09,C11,every-legacy-stream-listener-is-served] loop 2 each main.(*listenerSet).ListenStream satisfies $res1 == nil ==> evcount("go:service.StreamServe") == 1
+//@   trace[C04,C09,C11,every-legacy-packet-listener-is-served-by-one-receive-loop] loop 2 each main.(*listenerSet).ListenPacket satisfies $res1 == nil ==> evcount("go:service.Service.HandlePacket") == 1
+//@   trace[C09,legacy-stream-listener-served-by-the-service-of-its-port] loop 2 each go:service.StreamServe satisfies uses(ln) && uses(ssService)
+//@   trace[C09,legacy-packet-listener-served-by-the-service-of-its-port] loop 2 each go:service.Service.HandlePacket satisfies uses(pc) && uses(ssService)
+//@   trace[C10,every-supported-listener-entry-is-started] loop 4 holds supportedListenerType(lnConfig.Type) ==> evcount("main.(*listenerSet).Listen*") == 1
 //@   trace[C10,C11,every-listener-of-a-generation-belongs-to-its-set] never service.*istenerManager*.Listen*
 //@   trace[C11,legacy-keys-installed-before-serving] loop 2 before service.(*cipherList).Update go:*
 //@   trace[C09,C11,legacy-keys-installed-once-per-port] loop 2 exactly 1 service.(*cipherList).Update
